@@ -418,7 +418,7 @@ def c_verifier_new(it, recv, a):
     root = VOpaque("pow", [ginv, VArr([Sym(idxs.path + "[*]"), 0, 0, 0], "array")])
     roots = VOpaque("collected", [Sym(VOpaque("map_each", [idxs, root]).canon())])
     tr = base_events(it, label, vk, constraints, False)
-    return VOk(VStruct("Self", {"label": label, "verifier_key": vk, "opening_key": ok, "public_input_indexes": idxs,
+    return VOk(VStruct("Verifier", {"label": label, "verifier_key": vk, "opening_key": ok, "public_input_indexes": idxs,
                                 "public_input_roots": roots, "domain": domain, "transcript": tr, "size": size, "constraints": constraints}))
 
 
